@@ -415,6 +415,15 @@ Theorem C16_matchlist_groupby_attr : forall s objs t v, x_groupby CMl (KsTuple [
 Proof. exact matchlist_groupby_attr. Qed.
 Print Assumptions C16_matchlist_groupby_attr.
 
+(* a history across collection kinds has NO state: the answer of a step is the answer of that step alone, whatever was grouped,
+   sorted or filtered before it, and running the steps in another order permutes the answers *)
+Theorem C16_xhist_stateless :
+  (forall steps, run_C16_xhist steps = VL [VB (forallb xstep_wf steps); VL (xhist_vals steps)]) /\
+  (forall pre s post, nth_error (xhist_vals (pre ++ s :: post)) (length pre) = Some (result (xstep_req s))) /\
+  (forall steps steps', Permutation steps steps' -> Permutation (xhist_vals steps) (xhist_vals steps')).
+Proof. exact xhist_stateless. Qed.
+Print Assumptions C16_xhist_stateless.
+
 (* non-vacuity *)
 Example C16_witness_filter :
   let xs := [Ft 0 [(0, 3)%Z] [(k_type, PStr (bs "CDS"%bs)); (bs "n"%bs, PInt 2)]; Ft 1 [(1, 9)%Z] [(bs "n"%bs, PInt 0)];
